@@ -3,74 +3,114 @@
 Correspondence.  The REAL `NxscopeHandler` + `CommHandler` with their receive and stream threads run
 under `harness/vsim.py` with `preempt=True` (real threads, one runnable at a time, a switch point at
 every Lock acquire / release, Queue put / get, Event op, thread start, link write) against the
-acknowledging reference device `refdev.RefDevice`.  2..4 application threads (`vsim.VThread`) run
-short programs over
-    e<c,…> ch_enable   d<c,…> ch_disable   v<val>:<c,…> ch_divider   W channels_write
+reference device `refdev.RefDevice` (0..5 channels of mixed sample types; acknowledging, or — `pol=` —
+answering the set requests with a scripted sequence of ack / nack / lost request / applied-but-ACK-lost).
+2..4 application threads (`vsim.VThread`) run short programs over
+    e<c,…> ch_enable   d<c,…> ch_disable   v<val>:<c,…> ch_divider      (suffix `!` = writenow=True)
+    N ch_disable_all   A ch_enable_all   C channels_default_cfg         (N! / C! = writenow=True)
+    W channels_write   T1 stream_start   T0 stream_stop  (issued by ONE of the application threads)
     s<c> stream_sub    u<k> stream_unsub (own k-th queue)   g<k> queue get (own k-th queue)
-    q<c> ch_is_enabled r<c> ch_div_get
-each ending with `W`, with the stream running in part of the cases.  Every scheduling decision of
-the concurrent phase with more than one candidate is recorded; a schedule is
+    q<c> ch_is_enabled r<c> ch_div_get   i<c> dev_channel_get(c).data (device-info lock)
+with the stream running in part of the cases.  Every scheduling decision of the concurrent phase with
+more than one candidate is recorded; a schedule is
     seed:<n>          seeded random choices
     script:<i,j,…>    explicit choice indices (index into the candidate list, 0 afterwards)
 and schedules are drawn three ways: seeded random; exhaustive enumeration of the first D decision
 points of tiny programs; all placements of <= k deviations from the all-zero (priority) schedule
 (k = 2 quick / 3 thorough, capped per program — caps that were hit are listed in the evidence).
+Pinned schedules (`harness/corpus/C12/pinned.txt`, lines `#! c12 …`: the failing schedules of past
+seeded changes) run first in every tier.
 
 Trace at lock granularity.  Without touching /repo, the harness replaces the lock objects of the
 real instances by recording subclasses of `vsim.VLock` and wraps the public methods of the real
-objects (instance attributes).  The sequence of channels-lock critical sections, in the order in
-which they were entered, each labelled with the public call it belongs to and with the state seen
-just before the lock is released, is ONE history of the configuration machine:
-    cfg run <flags> <en> <div> <ops>     when the two halves of every channels_write are adjacent
-    locks run <flags> <en> <div> <ops>   otherwise (`Wd:a` / `We:a` = divider / enable half)
+objects (instance attributes).  The sequence of critical sections of the channels lock AND of the
+queue lock, in the order in which they were entered, each labelled with the call it belongs to and
+with what it showed (the configuration state seen just before the channels lock is released; the
+subscriber lists at the release of the queue lock; the answer of the stream thread's enabled check; the
+puts of the stream thread's delivery block), is ONE history of the lock-level machine:
+    cfg run <flags> <en> <div> <ops>     no subscriber-side section, the two halves of every write adjacent
+    locks run <flags> <en> <div> <ops>   otherwise (`Wd:<o>` / `We:<o>` = divider / enable half, `s<ch>` `u<q>`
+                                         `fc<ch>` `fd<ch>:<val>,…` = sub / unsub / enabled check / delivery)
 (`e` with no channel / `q` = a query: the state string carries the ANSWER the thread got in place of
-the corresponding bit of `now`).  `impl` returns the observed per-op states in exactly the format of
-the model driver, which must reproduce them: every schedule is an op list of the model.
+the corresponding bit of `now`).  `impl` returns the observed per-section outputs in exactly the format
+of the model driver, which must reproduce them: every schedule is an op list of the model.
 
 Oracle per run (independent of the Lean model): no Deadlock / Spin / TimeLimit / hang (lock cycle
-reported from the lock owners and waiters), no exception in any thread, `sim.errors` empty;
+reported from the lock owners and waiters), no exception in any thread, `sim.errors` empty, the
+concurrent phase ends within its time budget — these for EVERY device; and on an acknowledging device:
 linearizable answers — every change of the reference device's vectors is logged with a logical
-step counter, and a `ch_is_enabled(c)` (`ch_div_get(c)`) call spanning steps [s0, s1] must return
-the device's value of channel c at SOME step of that interval; once all threads are joined, device
-state == requested vector == what the client reports; and for the subscriber side: within one
-fan-out of the stream thread every queue that is subscribed throughout receives exactly the
-samples of its channel that passed the enabled check, nothing is delivered to a queue whose
-unsubscription had already returned.
+step counter, and a `ch_is_enabled(c)` (`ch_div_get(c)`) call spanning steps [s0, s1] (also the stream
+thread's) must return the device's value of channel c at SOME step of that interval; once all threads
+are joined, what the client reports == device state, and — if a write started after the last setter
+call had returned — device state == requested vector, where every channel's value must be the value of
+a setter CALL OF THE APPLICATION (program level: `N` means "all channels off") that no later call
+overrides; and for the subscriber side: within one fan-out of the stream thread every queue that is
+subscribed throughout receives exactly the samples of its channel that passed the enabled check,
+nothing is delivered to a queue whose unsubscription had already returned.
 
 A violation's `case` is a `c12 …` line that contains the programs and the explicit script, so
-`./check C12 --replay <file>` re-executes exactly that schedule.
+`./check C12 --replay <file>` re-executes exactly that schedule.  `python harness/props/C12.py '<c12 line>'`
+executes one spec line and prints the oracle's verdict and the trace.
+
+Observation outside the property (not judged by this check).  `stream_start` / `stream_stop` send their request
+outside the channels lock and ACK frames are not matched to requests.  Against a device with processing latency a
+writer inside `channels_write` can consume the ACK of another thread's concurrent START request, mark its own
+enable request as written and release the channels lock before the device has applied it; `ch_is_enabled` then
+answers ahead of the device.  The property's operation list (configure, write, subscribe, unsubscribe, read) does
+not contain concurrent stream start / stop, the reference device applies a request inside the client's write call,
+and at most one application thread of a spec issues T0 / T1.  Reproduce (opt-in latency link):
+  VERIF_C12_LATENCY=1 /venv/bin/python harness/props/C12.py 'c12 n=2 flags=3 ty=6,10 en=00 div=0,0 stream=0 pol=- progs=T1|e0!|q0;q0;q0;q0 sched=script:1,0,0,3,0,0,0,0,0,2,1,2,2,0,0,0,0,1,0,2,1,1,0,1,1,1,1,0,1,1,2,1,1,1,1,1,0,1,0,1'
+  -> stale-answer: ch_is_enabled(0) … returned True but the device's value of channel 0 was [False] throughout
+(control: the same with `W` in place of `T1`: no violation in 400 seeds + all schedules with <= 2 deviations).
 """
 from __future__ import annotations
 
 import multiprocessing
 import os
 import random
+import struct
+import sys
 
+sys.path.insert(0, os.path.dirname(os.path.dirname(os.path.abspath(__file__))))     # when run as a script
 import common
 from common import Prop, hexs
 import vsim
 import refdev
 import sessionlib as sl
 
-JOIN_BUDGET = 5.0        # virtual seconds the concurrent phase may take before it is declared hung
-MAX_DECISIONS = 4000
+JOIN_BUDGET = 5.0        # virtual seconds the concurrent phase may take (plus 1.1 s per possibly unanswered request)
+MAX_DECISIONS = 6000
+TYPES_OK = [4, 5, 6, 7, 8, 9, 10, 11]     # numeric sample types of >= 2 bytes: a sample value identifies the sample
+PINNED = os.path.join(common.HERE, "corpus", "C12", "pinned.txt")
+# opt-in scenario, NOT part of quick / thorough (see "observations outside the property" at the end of the module doc):
+# VERIF_C12_LATENCY=1 gives the reference device a processing latency during the concurrent phase — a request is
+# handled at the next link read instead of inside the client's write call
+LATENCY = os.environ.get("VERIF_C12_LATENCY", "") not in ("", "0")
 
 
 # ---------------------------------------------------------------------------------------------------------
 # spec lines
 # ---------------------------------------------------------------------------------------------------------
-def spec_line(n, flags, en, div, stream, progs, sched):
-    return (f"c12 n={n} flags={flags} en={sl.bits(en)} div={sl.ints(div)} stream={int(stream)} "
-            f"progs={'|'.join(';'.join(p) for p in progs)} sched={sched}")
+def spec_line(spec, sched):
+    n = spec["n"]
+    types = spec.get("types") or [6] * n
+    pol = spec.get("pol")
+    return (f"c12 n={n} flags={spec['flags']} ty={','.join(map(str, types)) or '-'} en={sl.bits(spec['en'])} "
+            f"div={sl.ints(spec['div'])} stream={int(spec['stream'])} pol={','.join(pol) if pol else '-'} "
+            f"progs={'|'.join(';'.join(p) for p in spec['progs'])} sched={sched}")
 
 
 def parse_spec(line):
     kv = dict(t.split("=", 1) for t in line.split(" ")[1:])
     n = int(kv["n"])
-    en = [c == "1" for c in kv["en"]]
-    div = [int(x) for x in kv["div"].split(",")]
+    en = [] if kv["en"] == "-" else [c == "1" for c in kv["en"]]
+    div = [] if kv["div"] == "-" else [int(x) for x in kv["div"].split(",")]
+    ty = kv.get("ty", "-")
+    types = [6] * n if ty == "-" else [int(x) for x in ty.split(",")]
+    pol = kv.get("pol", "-")
     progs = [p.split(";") for p in kv["progs"].split("|")]
-    return dict(n=n, flags=int(kv["flags"]), en=en, div=div, stream=kv["stream"] == "1", progs=progs, sched=kv["sched"])
+    return dict(n=n, flags=int(kv["flags"]), types=types, en=en, div=div, stream=kv["stream"] == "1",
+                pol=None if pol == "-" else pol.split(","), progs=progs, sched=kv["sched"])
 
 
 def sched_parse(s):
@@ -89,6 +129,11 @@ def script_str(choices):
     while c and c[-1] == 0:
         c.pop()
     return "script:" + (",".join(map(str, c)) or "-")
+
+
+def writes_of(op):
+    """number of set requests the op can emit"""
+    return 2 if (op == "W" or op.endswith("!") or op == "T1") else 0
 
 
 # ---------------------------------------------------------------------------------------------------------
@@ -132,10 +177,16 @@ class Rec:
         self.open = {}
         self.devlog = []
         self.puts = []
+        self.pollog = []        # (step, kind, outcome token) of every set request the device decided on
+        self.intents = []       # program-level setter calls of the application
         self.stream_cur = None
         self.snap = None        # function -> snapshot dict
+        self.subsnap = None     # function -> list of per-channel queue-object lists
         self.link = None
         self.sim = None
+        self.qids = {}          # id(queue object) -> queue number (order of the stream_sub sections)
+        self.qkeep = []
+        self.next_qid = 0
 
     def tick(self):
         self.step += 1
@@ -146,9 +197,13 @@ class Rec:
             return
         sec = dict(lock=lock.name, task=task.name if task else "?", enter=self.tick(), w0=len(self.link.writes),
                    t0=self.sim.now, call=self.cur_call.get(task), fan=None)
-        if lock.name == "queue" and sec["task"] == "stream":
-            sec["fan"] = self.stream_cur
-            self.stream_cur = None
+        if lock.name == "queue":
+            if sec["task"] == "stream":
+                sec["fan"] = self.stream_cur
+                self.stream_cur = None
+            elif sec["call"] is not None and sec["call"]["name"] == "stream_sub":
+                sec["qid"] = self.next_qid
+                self.next_qid += 1
         self.open[lock.name] = sec
         self.sections.append(sec)
         if sec["call"] is not None:
@@ -162,8 +217,21 @@ class Rec:
             return
         if lock.name == "channels":
             sec["snap"] = self.snap()
-            sec["sent"] = list(self.link.writes[sec["w0"]:])
+            sec["sent"] = [w for w, t in zip(self.link.writes[sec["w0"]:], self.link.wtask[sec["w0"]:]) if t == sec["task"]]
             sec["dt"] = self.sim.now - sec["t0"]
+        elif lock.name == "queue":
+            subs = []
+            for lst in self.subsnap():
+                row = []
+                for q in lst:
+                    k = self.qids.get(id(q))
+                    if k is None:       # the queue this very section appends
+                        k = sec.get("qid", -1)
+                        self.qids[id(q)] = k
+                        self.qkeep.append(q)
+                    row.append(k)
+                subs.append(row)
+            sec["subs"] = subs
         sec["exit"] = self.tick()
 
 
@@ -195,11 +263,14 @@ def make_link(sim, device, stream_every=None):
     blocks at most `poll` virtual seconds; long while one thread talks, short in the concurrent phase)"""
     from nxslib.intf.iintf import ICommInterface
 
+    pending = []
+
     class Link(ICommInterface):
         def __init__(self):
             super().__init__()
             self.writes = []
-            self.reads = 0
+            self.wtask = []          # who wrote it (a request outside the channels lock — stream start / stop of another
+            self.reads = 0           # thread — may be written while somebody's critical section is open)
             self.poll = 0.2
 
         def start(self):
@@ -213,6 +284,8 @@ def make_link(sim, device, stream_every=None):
 
         def _read(self):
             self.reads += 1
+            if pending:
+                device.on_write(pending.pop(0))
             if stream_every and self.reads % stream_every == 0:
                 device.stream_tick()
             ok = sim.block(lambda: len(device.rx) > 0, self.poll, "link-read")
@@ -224,8 +297,12 @@ def make_link(sim, device, stream_every=None):
 
         def _write(self, data):
             self.writes.append(bytes(data))
+            self.wtask.append(sim.cur.name if sim.cur else "?")
             sim.yield_("link-write")
-            device.on_write(bytes(data))
+            if LATENCY and getattr(sim, "phase", False):
+                pending.append(bytes(data))
+            else:
+                device.on_write(bytes(data))
 
     device.now = lambda: sim.now
     return Link()
@@ -273,16 +350,32 @@ def chans_arg(s):
     return cs[0] if len(cs) == 1 else cs
 
 
+def sample_bytes(ty, v):
+    """one sample of a numeric channel type carrying the number v"""
+    import streamglue as sg
+    code, size, _ = sg.STD[ty & 0x1F]
+    if code in "fd":
+        return struct.pack("<" + code, float(v))
+    return int(v).to_bytes(size, "little")
+
+
+def sval(x):
+    """the number a decoded sample carries"""
+    return int(x.data[0])
+
+
 # ---------------------------------------------------------------------------------------------------------
 # one execution
 # ---------------------------------------------------------------------------------------------------------
 class Result:
-    __slots__ = ("line", "impl", "verdict", "choices", "ncands", "nontrivial", "spec", "split", "abnormal")
+    __slots__ = ("line", "impl", "verdict", "choices", "ncands", "nontrivial", "spec", "split", "abnormal", "kinds")
 
 
 def run_spec(spec, seed=None, script=None):
     """execute one schedule of one spec on the real code; returns Result"""
     n, flags = spec["n"], spec["flags"]
+    types = spec.get("types") or [6] * n
+    pol = list(spec.get("pol") or [])
     rec = Rec()
     sim = XSim()
     rec.sim = sim
@@ -300,8 +393,29 @@ def run_spec(spec, seed=None, script=None):
                 if rec.active:
                     rec.devlog.append((rec.tick(), tuple(self.en), tuple(self.div)))
 
-        dev = LogDevice(sl.mk_chans(spec["en"], spec["div"], types=[6] * n), flags=flags)
-        link = make_link(sim, dev, stream_every=2 if spec["stream"] else None)
+            def stream_tick(self):
+                # one frame with one sample of every enabled channel; the sample of channel i in frame k carries 8k+i
+                if not self.started:
+                    return
+                body = bytearray([0])
+                for i, ch in enumerate(self.chans):
+                    if ch["en"]:
+                        body.append(i)
+                        body += sample_bytes(ch["type"], self.stream_cntr * 8 + i)
+                self.stream_cntr += 1
+                if len(body) > 1:
+                    self._send(refdev.STREAM, bytes(body))
+
+        def policy(dev_, kind, req):
+            if kind not in ("enable", "div"):
+                return "ack"
+            o = pol.pop(0) if pol else "a"
+            if rec.active:
+                rec.pollog.append((rec.tick(), kind, o))
+            return {"a": "ack", "x": "applied-ack-lost", "l": "lost"}.get(o) or ("nack", int(o[1:]))
+
+        dev = LogDevice(sl.mk_chans(spec["en"], spec["div"], types=list(types)), flags=flags, policy=policy)
+        link = make_link(sim, dev, stream_every=2 if (spec["stream"] or any(op in ("T1",) for p in spec["progs"] for op in p)) else None)
         rec.link = link
         nxm.queue.Queue = make_logqueue(rec)          # the shim namespace installed by vsim (restored on exit)
         nx = NxscopeHandler(link, Parser())
@@ -322,6 +436,7 @@ def run_spec(spec, seed=None, script=None):
                         dev_en=dev.en, dev_div=dev.div, cp_en=[c.data.en for c in chs], cp_div=[c.data.div for c in chs],
                         rs=(bool(ch.en_resync), bool(ch.div_resync)))
         rec.snap = snap
+        rec.subsnap = lambda: [list(l) for l in nx._sub_q]
 
         def after_stream_data(call):
             if call["task"] == "stream" and call["result"] is not None:
@@ -331,7 +446,7 @@ def run_spec(spec, seed=None, script=None):
             if call["task"] == "stream" and rec.stream_cur is not None:
                 rec.stream_cur["answers"].append((call["args"][0], call["result"]))
 
-        for name in ("ch_enable", "ch_disable", "ch_divider", "channels_write", "ch_div_get"):
+        for name in ("ch_enable", "ch_disable", "ch_divider", "channels_write", "ch_div_get", "_ch_divider_default"):
             wrap(comm, name, rec)
         wrap(comm, "ch_is_enabled", rec, after_is_enabled)
         wrap(comm, "stream_data", rec, after_stream_data)
@@ -343,36 +458,72 @@ def run_spec(spec, seed=None, script=None):
         if spec["stream"]:
             nx.stream_start()
 
+        def intent(kind, chans, value):
+            it = dict(kind=kind, chans=chans, value=value, s0=rec.tick(), s1=None, task=vsim.sim().cur.name)
+            rec.intents.append(it)
+            return it
+
         def prog(k, ops):
             qs = []
             for op in ops:
+                wn = op.endswith("!")
+                if wn:
+                    op = op[:-1]
                 c = op[0]
-                if op == "W":
-                    nx.channels_write()
-                elif c == "e":
-                    nx.ch_enable(chans_arg(op[1:]))
-                elif c == "d":
-                    nx.ch_disable(chans_arg(op[1:]))
-                elif c == "v":
-                    v, cs = op[1:].split(":")
-                    nx.ch_divider(chans_arg(cs), int(v))
-                elif c == "s":
-                    qs.append(nx.stream_sub(int(op[1:])))
-                elif c == "u":
-                    if qs:
-                        nx.stream_unsub(qs[int(op[1:]) % len(qs)])
-                elif c == "g":
-                    if qs:
-                        try:
-                            qs[int(op[1:]) % len(qs)].get(block=True, timeout=0.05)
-                        except vsim.Empty:
-                            pass
-                elif c == "q":
-                    comm.ch_is_enabled(int(op[1:]))
-                elif c == "r":
-                    comm.ch_div_get(int(op[1:]))
-                else:
-                    raise ValueError(op)
+                it = None
+                try:
+                    if op == "W":
+                        nx.channels_write()
+                    elif op == "T1":
+                        nx.stream_start()
+                    elif op == "T0":
+                        nx.stream_stop()
+                    elif op == "N":
+                        it = intent("en", list(range(n)), False)
+                        nx.ch_disable_all(True) if wn else nx.ch_disable_all()
+                    elif op == "A":
+                        it = intent("en", list(range(n)), True)
+                        comm.ch_enable_all()
+                    elif op == "C":
+                        it = intent("en+div", list(range(n)), False)
+                        nx.channels_default_cfg(True) if wn else nx.channels_default_cfg()
+                    elif c == "e":
+                        a = chans_arg(op[1:])
+                        it = intent("en", a if isinstance(a, list) else [a], True)
+                        nx.ch_enable(a, True) if wn else nx.ch_enable(a)
+                    elif c == "d":
+                        a = chans_arg(op[1:])
+                        it = intent("en", a if isinstance(a, list) else [a], False)
+                        nx.ch_disable(a, True) if wn else nx.ch_disable(a)
+                    elif c == "v":
+                        v, cs = op[1:].split(":")
+                        a = chans_arg(cs)
+                        it = intent("div", a if isinstance(a, list) else [a], int(v))
+                        nx.ch_divider(a, int(v), True) if wn else nx.ch_divider(a, int(v))
+                    elif c == "s":
+                        qs.append(nx.stream_sub(int(op[1:])))
+                    elif c == "u":
+                        if qs:
+                            nx.stream_unsub(qs[int(op[1:]) % len(qs)])
+                    elif c == "g":
+                        if qs:
+                            try:
+                                qs[int(op[1:]) % len(qs)].get(block=True, timeout=0.05)
+                            except vsim.Empty:
+                                pass
+                    elif c == "q":
+                        comm.ch_is_enabled(int(op[1:]))
+                    elif c == "r":
+                        comm.ch_div_get(int(op[1:]))
+                    elif c == "i":
+                        ch = nx.dev_channel_get(int(op[1:]))
+                        if ch is not None:
+                            _ = (ch.data.en, ch.data.div, ch.data.name)
+                    else:
+                        raise ValueError(op)
+                finally:
+                    if it is not None:
+                        it["s1"] = rec.tick()
 
         ths = [vsim.VThread(target=prog, args=(k, p), name=f"app{k}") for k, p in enumerate(spec["progs"])]
         out["phase_step"] = rec.tick()
@@ -381,7 +532,12 @@ def run_spec(spec, seed=None, script=None):
         link.poll = 0.02
         sim.phase = True
         sim.preempt = True
-        deadline = sim.now + JOIN_BUDGET
+        budget = JOIN_BUDGET
+        if spec.get("pol"):
+            budget += 1.1 * (2 + sum(writes_of(op) for p in spec["progs"] for op in p))
+        out["budget"] = budget
+        t_start = sim.now
+        deadline = sim.now + budget
         for t in ths:
             t.start()
         hung = []
@@ -391,6 +547,7 @@ def run_spec(spec, seed=None, script=None):
                 hung.append(t.name)
         sim.phase = False
         sim.preempt = False
+        out["phase_time"] = sim.now - t_start
         if hung:
             desc = []
             for t in sim.tasks:
@@ -402,6 +559,7 @@ def run_spec(spec, seed=None, script=None):
                     desc.append(f"{t.name} holds {holds} waits for {waits}")
             out["hang"] = (hung, desc, [repr(t) for t in sim.tasks if t.state != "done"])
             return
+        out["final_snap"] = snap()
         out["end"] = dict(dev_en=dev.en, dev_div=dev.div, new_en=list(comm._channels.en_new),
                           new_div=list(comm._channels.div_new),
                           rep_en=[comm.ch_is_enabled(i) for i in range(n)], rep_div=[comm.ch_div_get(i) for i in range(n)])
@@ -430,6 +588,7 @@ def run_spec(spec, seed=None, script=None):
     res.ncands = list(sim.xn)
     res.abnormal = None
     res.split = False
+    res.kinds = set()
     res.verdict = judge(spec, rec, out, err, sim)
     build_trace(spec, rec, out, res)
     return res
@@ -453,8 +612,22 @@ def value_at(devlog, idx, c, s0, s1):
     return vals
 
 
+def admissible(intents, kinds, c, init):
+    """values channel c may end with: the values of the application's setter calls touching c that no other such
+    call follows (a call that started after this one had returned overrides it); `init` if nobody touched c"""
+    mine = [it for it in intents if it["kind"] in kinds and c in it["chans"] and it["s1"] is not None]
+    if not mine:
+        return {init}
+    out = set()
+    for x in mine:
+        if not any(y["s0"] > x["s1"] for y in mine):
+            out.add(0 if (x["kind"] == "en+div" and "div" in kinds) else x["value"])
+    return out
+
+
 def judge(spec, rec, out, err, sim):
     n, flags = spec["n"], spec["flags"]
+    acking = not spec.get("pol")
 
     def bad(key, what, expected="-", observed="-"):
         return {"key": key, "what": what, "expected": str(expected), "observed": str(observed)}
@@ -477,7 +650,9 @@ def judge(spec, rec, out, err, sim):
         if desc:
             return bad("deadlock", "threads never finished; lock wait-for state: " + "; ".join(desc), "all threads finish",
                        f"not finished: {hung}")
-        return bad("hang", f"threads {hung} never finished: {tasks}", "all threads finish", hung)
+        return bad("hang", f"threads {hung} not finished after {out.get('budget')} virtual seconds: {tasks}", "all threads finish", hung)
+    if not acking:
+        return None       # a device that rejects / loses requests: deadlock, exception and bounded time only
     # linearizable answers
     for call in rec.calls:
         if call["name"] in ("ch_is_enabled", "ch_div_get") and call["exc"] is None and call["s1"] is not None:
@@ -495,17 +670,43 @@ def judge(spec, rec, out, err, sim):
                            sorted(vals, key=str), call["result"])
     # final state
     end = out["end"]
-    if end["dev_en"] != end["new_en"] or end["rep_en"] != end["dev_en"]:
-        return bad("final-state", "after all threads finished (each ending with a write): device enable vector / requested "
-                   "vector / reported vector differ", f"dev={sl.bits(end['dev_en'])}",
-                   f"requested={sl.bits(end['new_en'])} reported={sl.bits(end['rep_en'])}")
-    if flags & 1:
-        if end["dev_div"] != end["new_div"] or end["rep_div"] != end["dev_div"]:
-            return bad("final-state", "after all threads finished: device dividers / requested / reported differ",
-                       f"dev={sl.ints(end['dev_div'])}", f"requested={sl.ints(end['new_div'])} reported={sl.ints(end['rep_div'])}")
-    elif end["dev_div"] != out["init"][1]:
-        return bad("final-state", "dividers of a device without divider support changed", sl.ints(out["init"][1]),
+    init_en, init_div = out["init"]
+    if end["rep_en"] != end["dev_en"]:
+        return bad("final-state", "after all threads finished: what ch_is_enabled reports differs from the device's enable "
+                   "vector", f"dev={sl.bits(end['dev_en'])}", f"reported={sl.bits(end['rep_en'])}")
+    if flags & 1 and end["rep_div"] != end["dev_div"]:
+        return bad("final-state", "after all threads finished: what ch_div_get reports differs from the device's dividers",
+                   f"dev={sl.ints(end['dev_div'])}", f"reported={sl.ints(end['rep_div'])}")
+    if not flags & 1 and end["dev_div"] != init_div:
+        return bad("final-state", "dividers of a device without divider support changed", sl.ints(init_div),
                    sl.ints(end["dev_div"]))
+    writes = [c["s0"] for c in rec.calls if c["name"] == "channels_write" and c["exc"] is None and c["s1"] is not None]
+    for kinds, key, dev_v, new_v, init_v, on in ((("en", "en+div"), "enable", end["dev_en"], end["new_en"], init_en, True),
+                                                 (("div", "en+div"), "divider", end["dev_div"], end["new_div"], init_div, bool(flags & 1))):
+        if not on or n == 0:
+            continue
+        setters = [it for it in rec.intents if it["kind"] in kinds]
+        # the setter part of a writenow call ends where its own write begins
+        ends = []
+        for it in setters:
+            e1 = it["s1"]
+            for c in rec.calls:
+                if c["name"] == "channels_write" and c["task"] == it["task"] and it["s0"] < c["s0"] < it["s1"]:
+                    e1 = min(e1, c["s0"])
+            ends.append(e1)
+        last = max(ends) if ends else 0
+        if setters and not any(w >= last for w in writes):
+            continue          # some setter is not followed by a write: nothing is claimed about this vector
+        its = [dict(it, s1=e) for it, e in zip(setters, ends)]
+        for c in range(n):
+            adm = admissible(its, kinds, c, init_v[c])
+            if dev_v[c] not in adm:
+                return bad("final-state", f"after all threads finished (a write started after the last {key} setter call had "
+                           f"returned): the device's {key} state of channel {c} is {dev_v[c]!r}, the last request(s) of the "
+                           f"application for that channel asked for {sorted(adm, key=str)}", sorted(adm, key=str), dev_v[c])
+        if list(dev_v) != list(new_v):
+            return bad("final-state", f"after all threads finished: device {key} vector differs from the requested vector",
+                       f"dev={dev_v}", f"requested={new_v}")
     # subscriber side: per fan-out of the stream thread
     subs = []       # (queue, chan, step sub returned, step unsub called, step unsub returned)
     for call in rec.calls:
@@ -539,11 +740,18 @@ def judge(spec, rec, out, err, sim):
             elif u1 < sec["enter"] and got:
                 return bad("delivered-after-unsub", f"a queue whose stream_unsub returned at step {u1} received {got} in the "
                            f"fan-out of steps [{sec['enter']},{sec['exit']}]", [], got)
+    # the answer of ch_is_enabled is a truth value the callers test with `is True` (the stream thread's filter does)
+    for call in rec.calls:
+        if call["name"] == "ch_is_enabled" and call["exc"] is None and call["s1"] is not None and \
+                not isinstance(call["result"], bool):
+            return bad("non-bool-answer", f"ch_is_enabled({call['args'][0]}) called by {call['task']} returned {call['result']!r} "
+                       f"({type(call['result']).__name__}): callers that test the answer with `is True` — the stream thread's "
+                       "sample filter — treat it as not enabled", "True / False", repr(call["result"]))
     return None
 
 
 # ---------------------------------------------------------------------------------------------------------
-# the lock-level trace as a driver line + the observed per-op states
+# the lock-level trace as a driver line + the observed per-op outputs
 # ---------------------------------------------------------------------------------------------------------
 def state_str(snap, sent, dt, err="-", now_en=None, now_div=None):
     return (f"s={','.join(hexs(x) for x in sent) or '-'};t={round(dt * 10)};e={err};"
@@ -556,31 +764,71 @@ def cs_str(a):
     return ",".join(map(str, a)) if isinstance(a, list) else str(a)
 
 
+def dotted(l):
+    return ".".join(map(str, l)) or "-"
+
+
+def subs_str(subs):
+    return "/".join(dotted(r) for r in subs) if subs else "none"
+
+
 def build_trace(spec, rec, out, res):
-    """fills res.line / res.impl / res.nontrivial / res.split / res.abnormal"""
+    """fills res.line / res.impl / res.nontrivial / res.split / res.abnormal / res.kinds"""
     n, flags = spec["n"], spec["flags"]
-    secs = [s for s in rec.sections if s["lock"] == "channels" and "snap" in s]
-    # expected number of sections per call
+    secs = [s for s in rec.sections if s["lock"] in ("channels", "queue") and "exit" in s]
+    # expected number of channels-lock sections per call
     abnormal = None
     for call in rec.calls:
         if call["exc"] is not None and call["name"] != "stream_data":
             continue
         k = len([s for s in call["sections"] if s["lock"] == "channels"])
-        want = {"ch_enable": 1, "ch_disable": 1, "ch_divider": 1, "ch_is_enabled": 1, "ch_div_get": 1,
-                "channels_write": 2 if flags & 1 else 1}.get(call["name"])
+        want = {"ch_enable": 1, "ch_disable": 1, "ch_divider": 1, "ch_is_enabled": 1, "ch_div_get": 1, "_ch_divider_default": 1,
+                "channels_write": 0 if n == 0 else (2 if flags & 1 else 1)}.get(call["name"])
         if want is not None and k != want and call["s1"] is not None:
             abnormal = f"{call['name']} of {call['task']} entered the channels lock {k} times (expected {want})"
             break
-    items = []      # dicts: cfg token / state (None if not expressible), locks tokens / states, task
+    items = []      # dicts: cfg token / state (None if not expressible in `cfg run`), locks tokens / states, task
 
     def item(cfg_tok, cfg_state, l_toks, l_states, task):
         items.append(dict(cfg=cfg_tok, cfg_state=cfg_state, ltoks=l_toks, lstates=l_states, task=task))
+
+    def outcome(sec, kind):
+        for st, k, o in rec.pollog:
+            if sec["enter"] < st < sec["exit"] and k == kind:
+                return o
+        return "a"
+    fan_items = False
     if abnormal is None:
-        order = [s for s in secs if not (s["task"] == "stream" and s["call"] is not None and s["call"]["name"] == "ch_is_enabled")]
+        order = secs
         i = 0
         while i < len(order):
             s = order[i]
             call = s["call"]
+            if s["lock"] == "queue":
+                fan_items = True
+                if s["task"] == "stream" and call is None:
+                    fan = s["fan"]
+                    smps = [] if fan is None else [(x.chan, sval(x)) for x in fan["sdata"].samples]
+                    puts = [(rec.qids.get(id(qq), -1), [sval(x) for x in itm]) for st, qq, task, itm in rec.puts
+                            if s["enter"] < st < s["exit"]]
+                    tok = "fd" + (",".join(f"{c}:{v}" for c, v in smps) or "-")
+                    item(None, None, [tok], ["puts=" + (",".join(f"{q}:{dotted(g)}" for q, g in puts) or "-")], s["task"])
+                    res.kinds.add("deliver")
+                elif call is not None and call["name"] == "stream_sub":
+                    item(None, None, [f"s{call['args'][0]}"], [f"sub={s.get('qid', '?')};subs={subs_str(s['subs'])}"], s["task"])
+                    res.kinds.add("sub")
+                elif call is not None and call["name"] == "stream_unsub":
+                    qid = rec.qids.get(id(call["args"][0]))
+                    if qid is None:
+                        abnormal = f"stream_unsub of {s['task']} for a queue that was never subscribed"
+                        break
+                    item(None, None, [f"u{qid}"], [f"subs={subs_str(s['subs'])}"], s["task"])
+                    res.kinds.add("unsub")
+                else:
+                    abnormal = f"queue-lock section of {s['task']} outside stream_sub / stream_unsub / the stream thread"
+                    break
+                i += 1
+                continue
             if call is None:
                 abnormal = f"critical section of {s['task']} outside any public call"
                 break
@@ -592,6 +840,17 @@ def build_trace(spec, rec, out, res):
             elif nm == "ch_divider":
                 tok = f"v{call['args'][1]}:{cs_str(call['args'][0])}"
                 item(tok, st, [tok], [st], s["task"])
+            elif nm == "_ch_divider_default":
+                tok = "v0:" + ",".join(map(str, range(n)))
+                item(tok, st, [tok], [st], s["task"])
+            elif nm == "ch_is_enabled" and s["task"] == "stream":
+                if call["s1"] is None:
+                    # the phase ended before the stream thread's call returned: its answer was not observed
+                    i += 1
+                    continue
+                fan_items = True
+                item(None, None, [f"fc{call['args'][0]}"], [f"ans={int(bool(call['result']))}"], s["task"])
+                res.kinds.add("fancheck")
             elif nm in ("ch_is_enabled", "ch_div_get"):
                 c = call["args"][0]
                 now_en, now_div = list(s["snap"]["now_en"]), list(s["snap"]["now_div"])
@@ -606,27 +865,34 @@ def build_trace(spec, rec, out, res):
                 ids = [f[3] for f in s["sent"] if len(f) > 3]
                 if ids == [7]:
                     kind = "Wd"
+                    o1 = outcome(s, "div")
                 elif ids == [6]:
                     kind = "We"
+                    o1 = outcome(s, "enable")
                 else:
                     abnormal = f"a critical section of channels_write of {s['task']} sent frames with ids {ids}"
                     break
+                if o1 != "a":
+                    res.kinds.add("outcome-" + o1[0])
                 if kind == "Wd" and i + 1 < len(order) and order[i + 1]["call"] is call:
                     s2 = order[i + 1]
                     ids2 = [f[3] for f in s2["sent"] if len(f) > 3]
                     if ids2 != [6]:
                         abnormal = f"second critical section of channels_write of {s['task']} sent frames with ids {ids2}"
                         break
+                    o2 = outcome(s2, "enable")
+                    if o2 != "a":
+                        res.kinds.add("outcome-" + o2[0])
                     st2 = state_str(s2["snap"], s2["sent"], s2["dt"])
-                    item("W:a:a", state_str(s2["snap"], s["sent"] + s2["sent"], s["dt"] + s2["dt"]),
-                         ["Wd:a", "We:a"], [st, st2], s["task"])
+                    item(f"W:{o1}:{o2}", state_str(s2["snap"], s["sent"] + s2["sent"], s["dt"] + s2["dt"]),
+                         [f"Wd:{o1}", f"We:{o2}"], [st, st2], s["task"])
                     i += 2
                     continue
                 if kind == "We" and not flags & 1:
-                    item("W:a:a", st, ["We:a"], [st], s["task"])
+                    item(f"W:a:{o1}", st, [f"We:{o1}"], [st], s["task"])
                 else:
                     res.split = True
-                    item(None, None, [kind + ":a"], [st], s["task"])
+                    item(None, None, [f"{kind}:{o1}"], [st], s["task"])
             else:
                 abnormal = f"critical section inside {nm}"
                 break
@@ -634,15 +900,21 @@ def build_trace(spec, rec, out, res):
     init_en, init_div = out.get("init", (spec["en"], spec["div"]))
     head = f"{flags} {sl.bits(init_en)} {sl.ints(init_div)}"
     res.abnormal = abnormal
+    if abnormal is None and not items and "final_snap" in out and (n == 0 or not any(op[0] in "edvNACWTqr" for p in spec["progs"] for op in p)):
+        # no critical section at all is what a device without channels shows: the state is the initial one
+        res.line = f"cfg run {head} e"
+        res.impl = "ok " + state_str(out["final_snap"], [], 0)
+        res.nontrivial = False
+        return
     if abnormal is not None or not items:
         # still a line, so that the break shows up as a disagreement with the model
-        ops = ";".join(op for p in spec["progs"] for op in p if op[0] in "edv") or "e"
+        ops = ";".join(op.rstrip("!") for p in spec["progs"] for op in p if op[0] in "edv") or "e"
         res.line = f"cfg run {head} {ops}"
         res.impl = "abnormal: " + (abnormal or "no critical section recorded")
         res.nontrivial = False
         return
     toks, states = [], []
-    if res.split:
+    if res.split or fan_items:
         for it in items:
             toks += it["ltoks"]
             states += it["lstates"]
@@ -743,10 +1015,14 @@ def _job(job):
     nrun = 0
     maxdec = 0
     capped = False
+    kinds = {}
     if kind == "random":
         seeds = arg
         gen = (run_spec(spec, seed=s) for s in seeds)
         tag = f"random-t{len(spec['progs'])}"
+    elif kind == "pinned":
+        gen = iter([run_spec(spec, script=arg)])
+        tag = "pinned"
     else:
         prefix, k, depth, cap = arg
         counter = [0]
@@ -755,7 +1031,9 @@ def _job(job):
     for res in gen:
         nrun += 1
         maxdec = max(maxdec, len(res.choices))
-        sp = spec_line(spec["n"], spec["flags"], spec["en"], spec["div"], spec["stream"], spec["progs"], script_str(res.choices))
+        for kk in res.kinds:
+            kinds[kk] = kinds.get(kk, 0) + 1
+        sp = spec_line(spec, script_str(res.choices))
         if res.verdict is not None and len(viol) < 3:
             v = dict(res.verdict)
             v["case"] = sp
@@ -765,34 +1043,51 @@ def _job(job):
         old = rows.get(key)
         if old is None or (old[1] == res.impl and old[3] is None and res.verdict is not None) or (old[1].startswith("ok") and not res.impl.startswith("ok")):
             rows[key] = (tag, res.impl, sp, res.verdict and dict(res.verdict, case=sp), res.nontrivial, res.split)
-    if kind != "random" and arg[3] is not None and nrun >= arg[3]:
+    if kind not in ("random", "pinned") and arg[3] is not None and nrun >= arg[3]:
         capped = True
-    return dict(runs=nrun, capped=capped, rows=rows, violations=viol, maxdec=maxdec, kind=kind,
+    return dict(runs=nrun, capped=capped, rows=rows, violations=viol, maxdec=maxdec, kind=kind, kinds=kinds,
                 prog="|".join(";".join(p) for p in spec["progs"]))
 
 
 # ---------------------------------------------------------------------------------------------------------
 # program generation
 # ---------------------------------------------------------------------------------------------------------
-def gen_prog(rng, n, length, stream, div_ok=True):
+def gen_prog(rng, n, length, ctl=False, acking=True, end_write=True):
+    """one application thread's program.  ctl: this thread may stop / start the stream."""
     ops = []
     nq = 0
+    if n == 0:
+        for _ in range(length):
+            ops.append(rng.choice(["W", "N", "N!", "A", "C", "C!", "i0", "W"] + (["T0", "T1"] if ctl else [])))
+        ops.append("W")
+        return ops
     for _ in range(length):
         r = rng.random()
         c = rng.randrange(n)
         cs = sorted(set(rng.randrange(n) for _ in range(rng.choice([1, 1, 2]))))
-        if r < 0.2:
-            ops.append("e" + ",".join(map(str, cs)))
-        elif r < 0.33:
-            ops.append("d" + ",".join(map(str, cs)))
-        elif r < 0.45:
-            ops.append(f"v{rng.choice([0, 1, 3, 200, 255])}:" + ",".join(map(str, cs)))
-        elif r < 0.58:
+        wn = "!" if rng.random() < 0.2 else ""
+        if r < 0.16:
+            ops.append("e" + ",".join(map(str, cs)) + wn)
+        elif r < 0.27:
+            ops.append("d" + ",".join(map(str, cs)) + wn)
+        elif r < 0.37:
+            ops.append(f"v{rng.choice([0, 1, 3, 200, 255])}:" + ",".join(map(str, cs)) + wn)
+        elif r < 0.41:
+            ops.append("N" + wn)
+        elif r < 0.44:
+            ops.append("A")
+        elif r < 0.47:
+            ops.append("C" + wn)
+        elif r < 0.57:
             ops.append("W")
-        elif r < 0.78:
+        elif r < 0.72:
             ops.append(f"q{c}")
-        elif r < 0.83:
+        elif r < 0.76:
             ops.append(f"r{c}")
+        elif r < 0.80:
+            ops.append(f"i{c}")
+        elif ctl and acking and r < 0.84:
+            ops.append(rng.choice(["T0", "T1"]))
         elif r < 0.91 or not nq:
             ops.append(f"s{c}")
             nq += 1
@@ -800,67 +1095,118 @@ def gen_prog(rng, n, length, stream, div_ok=True):
             ops.append(f"u{rng.randrange(nq)}")
         else:
             ops.append(f"g{rng.randrange(nq)}")
-    ops.append("W")
+    if end_write:
+        ops.append("W")
     return ops
 
 
-def gen_spec(rng, nthreads=None, length=None, stream=None, flags=None):
-    n = rng.choice([2, 2, 3])
+def gen_spec(rng, nthreads=None, length=None, stream=None, flags=None, n=None, pol=None):
+    if n is None:
+        n = rng.choice([1, 2, 2, 3, 3, 4, 5])
     flags = rng.choice([3, 3, 3, 2, 2, 1, 0]) if flags is None else flags
     en = [rng.random() < 0.3 for _ in range(n)]
     div = [rng.choice([0, 0, 5]) for _ in range(n)]
+    types = [rng.choice(TYPES_OK) for _ in range(n)]
     stream = (rng.random() < 0.5) if stream is None else stream
     nt = nthreads or rng.choice([2, 2, 3, 3, 4])
-    progs = [gen_prog(rng, n, length if length is not None else rng.randrange(1, 5), stream) for _ in range(nt)]
-    return dict(n=n, flags=flags, en=en, div=div, stream=stream, progs=progs, sched="")
+    if pol is None and rng.random() < 0.15:
+        pol = [rng.choice(["a", "a", "n3", "l", "x", "n1"]) for _ in range(rng.randrange(1, 6))]
+    ctl = rng.randrange(nt) if rng.random() < 0.35 else -1
+    # a thread that does not end with a write: the final state is judged only if somebody else's write follows
+    progs = [gen_prog(rng, n, length if length is not None else rng.randrange(1, 5), ctl=(k == ctl), acking=not pol,
+                      end_write=(k == 0 or rng.random() < 0.75)) for k in range(nt)]
+    return dict(n=n, flags=flags, types=types, en=en, div=div, stream=stream, pol=pol or None, progs=progs, sched="")
+
+
+def T(flags, stream, n, progs, en=None, div=None, types=None, pol=None):
+    return dict(n=n, flags=flags, types=types or ([6, 10, 4, 9, 11][:n]), en=list(en) if en is not None else [False] * n,
+                div=list(div) if div is not None else [0] * n, stream=stream, pol=pol, progs=progs, sched="")
 
 
 TINY = [
-    # (flags, stream, programs): writers and readers overlapping in all orders
-    (3, False, [["e0", "W"], ["q0", "W"]]),
-    (3, False, [["e0", "W"], ["d0", "e1", "W"]]),
-    (3, False, [["e0", "v3:1", "W"], ["q0", "r1", "W"]]),
-    (2, False, [["e0", "W"], ["q0", "e1", "W"]]),
-    (3, True, [["e0", "W"], ["s0", "q0", "W"]]),
-    (3, True, [["e0", "e1", "W"], ["s0", "u0", "W"]]),
-    (1, False, [["e1", "W"], ["q1", "W"]]),
+    # writers and readers overlapping in all orders
+    T(3, False, 2, [["e0", "W"], ["q0", "W"]]),
+    T(3, False, 2, [["e0", "W"], ["d0", "e1", "W"]]),
+    T(3, False, 2, [["e0", "v3:1", "W"], ["q0", "r1", "W"]]),
+    T(2, False, 2, [["e0", "W"], ["q0", "e1", "W"]]),
+    T(3, True, 2, [["e0", "W"], ["s0", "q0", "W"]]),
+    T(3, True, 2, [["e0", "e1", "W"], ["s0", "u0", "W"]]),
+    T(1, False, 2, [["e1", "W"], ["q1", "W"]]),
+    # set-all calls are not atomic; writenow; the device-info lock
+    T(3, False, 2, [["e1", "W"], ["N", "W"]]),
+    T(3, False, 2, [["e0!", "i0"], ["i0", "q0", "W"]]),
 ]
 
 TARGETED = [
     # aimed at: unprotected read of the acknowledged vector, released lock during the ACK wait, lock-order
     # inversion between subscription and the stream thread, unprotected subscriber list
-    (3, False, 2, [["e0", "W"], ["q0", "q0", "W"]]),
-    (3, False, 2, [["e0", "e1", "W", "d0", "W"], ["q0", "q1", "q0", "W"]]),
-    (3, True, 2, [["e0", "e1", "W", "s0", "g0", "W"], ["s0", "s1", "u0", "q0", "g1", "W"], ["s1", "u0", "s0", "W"]]),
-    (3, True, 2, [["e0", "W", "s0", "u0", "s0", "u0", "W"], ["s0", "g0", "g0", "g0", "W"]]),
-    (3, True, 3, [["e0", "e1", "e2", "W", "s0", "s1", "u0", "u1", "W"], ["s0", "s1", "g0", "u0", "g1", "W"], ["q0", "s2", "u0", "W"]]),
+    T(3, False, 2, [["e0", "W"], ["q0", "q0", "W"]]),
+    T(3, False, 2, [["e0", "e1", "W", "d0", "W"], ["q0", "q1", "q0", "W"]]),
     # writes in flight (their replies make the device emit stream frames) while others subscribe / unsubscribe
-    (3, True, 2, [["e0", "W", "s0", "W", "u0", "W", "W"], ["s0", "W", "W", "u0", "W"]]),
+    T(3, True, 2, [["e0", "W", "s0", "W", "u0", "W", "W"], ["s0", "W", "W", "u0", "W"]]),
+    # set-all against a buffered change of another thread; a channel enabled at connect and a bulk request
+    T(3, False, 3, [["e1", "W"], ["N", "W"]], en=[True, False, False]),
+    T(3, False, 4, [["d3", "W"], ["A", "W"]], en=[False, False, False, True]),
+    T(3, False, 5, [["e0", "W"], ["e1", "W"]], en=[False, False, False, True, False]),
+    # a setter between another thread's request and its bookkeeping, then a one-channel difference
+    T(3, False, 5, [["e1!", "e3!", "q2"], ["e2", "q2", "W"]]),
+    T(3, True, 2, [["e0", "e1", "W", "s0", "g0", "W"], ["s0", "s1", "u0", "q0", "g1", "W"], ["s1", "u0", "s0", "W"]]),
+    T(3, True, 2, [["e0", "W", "s0", "u0", "s0", "u0", "W"], ["s0", "g0", "g0", "g0", "W"]]),
+    T(3, True, 3, [["e0", "e1", "e2", "W", "s0", "s1", "u0", "u1", "W"], ["s0", "s1", "g0", "u0", "g1", "W"], ["q0", "s2", "u0", "W"]]),
+    # the stream stopped / started by an application thread while others configure and subscribe
+    T(3, True, 3, [["T0", "T1", "W"], ["s0", "e0!", "g0", "u0", "W"], ["e1", "q1", "W"]]),
+    # … with frames flowing from the start (channels enabled at connect): stop while the stream thread fans out
+    T(3, True, 2, [["s0", "g0", "g0", "T0", "W"], ["s1", "g0", "g0", "u0", "s0", "W"]], en=[True, True]),
+    # default configuration / writenow / the client's copy of the device description
+    T(3, False, 4, [["C!", "e2", "W"], ["v7:1,2", "e1!", "i1", "r1"], ["N!", "i2", "W"]], en=[True, True, False, False], div=[0, 5, 0, 5]),
+    # a device without channels
+    T(3, False, 0, [["N!", "W", "C"], ["A", "W", "C!", "i0"]]),
+    T(2, True, 0, [["T0", "T1", "W"], ["C", "W"]]),
+    # ACK support without divider support: a writer and a reader
+    T(2, False, 3, [["e0!", "d0!"], ["q0", "q0", "q0", "W"]]),
+    # requests rejected / lost: deadlock, exception and bounded time only
+    T(3, False, 3, [["e0", "W", "e1", "W"], ["d0", "v5:1", "W", "q0"]], pol=["n3", "l", "a", "x", "a", "n1"]),
+    T(1, True, 2, [["e0!", "s0", "g0", "W"], ["d0!", "e1!", "u0"]], pol=["l", "a", "l", "x"]),
 ]
+QUICK_TARGETED = [0, 3, 4, 5, 6, 10, 11, 13, 15, 16]     # indices into TARGETED explored with <= k deviations in the quick tier
 
 
-def tiny_spec(flags, stream, progs, n=2):
-    return dict(n=n, flags=flags, en=[False] * n, div=[0] * n, stream=stream, progs=progs, sched="")
+def pinned_specs():
+    """the pinned schedules: lines `#! c12 …` of harness/corpus/C12/pinned.txt"""
+    out = []
+    try:
+        for l in open(PINNED):
+            l = l.strip()
+            if l.startswith("#! c12 "):
+                out.append(parse_spec(l[3:]))
+    except FileNotFoundError:
+        pass
+    return out
 
 
 class C12(Prop):
     id = "C12"
     lean_module = "NxsModel.Props.C12"
     rule = ("real NxscopeHandler/CommHandler with receive + stream threads under vsim (preempt switch points at every lock / "
-            "queue / event / thread-start / link-write operation) against the acknowledging reference device; 2..4 application "
-            "threads with programs over {enable, disable, divider, write, sub, unsub, get, is_enabled, div_get} each ending "
-            "with a write, device flags 0..3, stream running in about half of the cases; schedules: exhaustive over the first "
-            "D decision points of tiny 2-thread programs, every placement of <= k deviations from the priority schedule "
-            "(k = 2 quick, 3 thorough; per-program caps reported in schedule_families_capped), seeded random; a case = one "
-            "DISTINCT lock-level trace (sequence of channels-lock critical sections with the observed state at each release) "
-            "as a `cfg run` / `locks run` history; executions counted separately as schedules_executed; non-trivial = the "
-            "application threads' critical sections are interleaved (some thread's sections are not contiguous)")
+            "queue / event / thread-start / link-write operation) against the reference device (0..5 channels of mixed numeric "
+            "types, device flags 0..3; acknowledging, or — about 15% of the random specs and two targeted ones — answering the "
+            "set requests with a scripted sequence of ack / nack / lost / applied-but-ACK-lost); 2..4 application threads with "
+            "programs over {enable, disable, divider (each also with writenow=True), disable_all, enable_all, "
+            "channels_default_cfg, write, sub, unsub, get, is_enabled, div_get, dev_channel_get, stream_start / stream_stop "
+            "from one of the threads}, most ending with a write, stream running in about half of the cases; schedules: pinned "
+            "(harness/corpus/C12/pinned.txt), exhaustive over the first D decision points of tiny 2-thread programs, every "
+            "placement of <= k deviations from the priority schedule (k = 2 quick, 3 thorough; per-program caps reported in "
+            "schedule_families_capped), seeded random; a case = one DISTINCT lock-level trace (sequence of critical sections "
+            "of the channels lock and of the queue lock with what each showed) as a `cfg run` / `locks run` history; "
+            "executions counted separately as schedules_executed; non-trivial = the application threads' critical sections "
+            "are interleaved (some thread's sections are not contiguous)")
     assumptions = ["vsim shims implement the documented semantics of Lock / Queue / Event / Thread on real OS threads, with "
                    "switch points only at these primitives: pre-emption INSIDE a critical section between two primitives, the "
                    "GIL and the fairness of threading.Lock are not exercised (the property is partial in that sense)",
-                   "the reference device (harness/refdev.py) is a conforming, acknowledging NxScope device",
-                   "connect / stream_start / disconnect are issued by one thread before / after the concurrent phase (life "
-                   "cycle is C09)",
+                   "the reference device (harness/refdev.py) is a conforming NxScope device that applies a request before "
+                   "the client's write call returns (no processing latency) and, unless scripted otherwise, acknowledges",
+                   "connect / disconnect are issued by one thread before / after the concurrent phase (life cycle is C09); "
+                   "stream_start / stream_stop are issued by at most ONE of the application threads of a spec",
                    "lock-level atomicity is argued from the regenerated lock table (Gen/Locks.lean), not derived from a "
                    "semantics of Python"]
     trusted_base = Prop.trusted_base + ["harness/translate_locks.py (lock-discipline table)",
@@ -881,27 +1227,43 @@ class C12(Prop):
         self.skipped_split = 0
         self.families = {}
         self.jobs_per = {}
+        self.kinds = {}
+        self.spec_stats = {}
+
+    def note_spec(self, spec):
+        st = self.spec_stats
+        for k, v in (("n", spec["n"]), ("flags", spec["flags"]), ("threads", len(spec["progs"])),
+                     ("device", "scripted-outcomes" if spec.get("pol") else "acking"), ("stream", int(spec["stream"]))):
+            d = st.setdefault(k, {})
+            d[str(v)] = d.get(str(v), 0) + 1
+        d = st.setdefault("ops", {})
+        for p in spec["progs"]:
+            for op in p:
+                key = op[0] + ("!" if op.endswith("!") else "") if op[0] not in "T" else op
+                d[key] = d.get(key, 0) + 1
 
     # -- jobs -----------------------------------------------------------------------------
     def jobs(self, rng, tier):
-        T = tier == "thorough"
+        T_ = tier == "thorough"
         jobs = []
+        for spec in pinned_specs():
+            _, script = sched_parse(spec["sched"])
+            jobs.append(("pinned", spec, script or []))
         # exhaustive over the first D decision points of tiny programs (split over the workers by the first 3 choices)
-        D = 12 if T else 9
-        for flags, stream, progs in TINY:
-            spec = tiny_spec(flags, stream, progs)
+        D = 12 if T_ else 9
+        for spec in TINY:
             for pre in prefixes(spec, 3):
-                jobs.append(("exhaustive", spec, (pre, D, D, 2500 if T else 300)))
+                jobs.append(("exhaustive", spec, (pre, D, D, 1800 if T_ else 220)))
         # <= k deviations from the priority schedule
-        k = 3 if T else 2
-        specs = [tiny_spec(f, s, p, n=n) for f, s, n, p in (TARGETED if T else TARGETED[:2] + TARGETED[-1:])]
-        for _ in range(10 if T else 3):
+        k = 3 if T_ else 2
+        specs = list(TARGETED) if T_ else [TARGETED[i] for i in QUICK_TARGETED]
+        for _ in range(10 if T_ else 3):
             specs.append(gen_spec(rng, nthreads=rng.choice([2, 3]), length=rng.randrange(2, 4)))
         for spec in specs:
             with pinned():
                 base = run_spec(spec, script=[])
-            cap = 900 if T else 500
-            nfirst = 60
+            cap = 480 if T_ else 300
+            nfirst = 48 if T_ else 36
             firsts = [(j, alt) for j in range(len(base.choices)) for alt in range(1, base.ncands[j])]
             if len(firsts) > nfirst:
                 self.sampled.append(f"{prog_str(spec)}: {nfirst} of {len(firsts)} first-deviation positions (sampled)")
@@ -910,11 +1272,13 @@ class C12(Prop):
             for j, alt in firsts:
                 jobs.append(("preempt", spec, (base.choices[:j] + [alt], k - 1, None, cap)))
         # seeded random
-        for _ in range(300 if T else 140):
-            spec = gen_spec(rng)
-            jobs.append(("random", spec, [rng.randrange(1 << 30) for _ in range(60 if T else 16)]))
-        for f, s, n, p in TARGETED:
-            jobs.append(("random", tiny_spec(f, s, p, n=n), [rng.randrange(1 << 30) for _ in range(150 if T else 40)]))
+        for i in range(300 if T_ else 130):
+            spec = gen_spec(rng, n=0 if i == 0 else None)
+            jobs.append(("random", spec, [rng.randrange(1 << 30) for _ in range(60 if T_ else 14)]))
+        for spec in TARGETED:
+            jobs.append(("random", spec, [rng.randrange(1 << 30) for _ in range(150 if T_ else 24)]))
+        for j in jobs:
+            self.note_spec(j[1])
         return jobs
 
     def run_jobs(self, jobs):
@@ -935,6 +1299,8 @@ class C12(Prop):
             self.executed += r["runs"]
             self.maxdec = max(self.maxdec, r["maxdec"])
             self.families[r["kind"]] = self.families.get(r["kind"], 0) + r["runs"]
+            for kk, v in r["kinds"].items():
+                self.kinds[kk] = self.kinds.get(kk, 0) + v
             key = f"{r['kind']} {r['prog']}"
             tot = self.jobs_per.get(key, [0, 0])
             tot[0] += 1
@@ -959,7 +1325,7 @@ class C12(Prop):
     def have_locks_driver(self):
         if self.locks_driver is None:
             try:
-                ans = common.driver_run(["locks run 3 0 0 q"])[0]
+                ans = common.driver_run(["locks run 3 0 0 q;s0;fc0;fd0:1;u0"])[0]
                 self.locks_driver = ans.startswith("ok")
             except Exception:  # noqa: BLE001
                 self.locks_driver = False
@@ -1003,8 +1369,7 @@ class C12(Prop):
             if res.verdict is None:
                 return None
             v = dict(res.verdict)
-            v["case"] = spec_line(spec["n"], spec["flags"], spec["en"], spec["div"], spec["stream"], spec["progs"],
-                                  script_str(res.choices))
+            v["case"] = spec_line(spec, script_str(res.choices))
             v["trace"] = res.line
             return v
         if line in self._verdict:
@@ -1018,8 +1383,7 @@ class C12(Prop):
         """targeted search, in parallel; returns the spec lines (with explicit scripts) of the failing executions
         found, plus the distinct traces of the rest"""
         jobs = []
-        for f, s, n, p in TARGETED:
-            spec = tiny_spec(f, s, p, n=n)
+        for spec in TARGETED:
             jobs.append(("random", spec, [rng.randrange(1 << 30) for _ in range(400)]))
             with pinned():
                 base = run_spec(spec, script=[])
@@ -1030,6 +1394,8 @@ class C12(Prop):
                 jobs.append(("preempt", spec, (base.choices[:j] + [alt], 1, None, 80)))
         for _ in range(60):
             jobs.append(("random", gen_spec(rng, stream=True, flags=3), [rng.randrange(1 << 30) for _ in range(25)]))
+        for _ in range(40):
+            jobs.append(("random", gen_spec(rng, stream=False, pol=[]), [rng.randrange(1 << 30) for _ in range(25)]))
         before = len(self.violations)
         self.run_jobs(jobs)
         out = []
@@ -1050,6 +1416,8 @@ class C12(Prop):
         cov["traces_with_split_write"] = self.split_traces
         cov["split_traces_not_replayed_driver_lacks_locks_op"] = self.skipped_split
         cov["max_decision_points"] = self.maxdec
+        cov["executions_with_section_kind"] = dict(sorted(self.kinds.items()))
+        cov["spec_distribution"] = {k: dict(sorted(v.items())) for k, v in self.spec_stats.items()}
         try:
             import translate_locks
             cov["lock_table_rows"] = {k: v for k, v in translate_locks.gen_locks(common.REPO).facts.items()}
@@ -1067,3 +1435,15 @@ class C12(Prop):
 
 
 PROP = C12()
+
+
+if __name__ == "__main__":
+    for _line in sys.argv[1:]:
+        _spec = parse_spec(_line)
+        _seed, _script = sched_parse(_spec["sched"])
+        _res = run_spec(_spec, seed=_seed, script=_script)
+        print("latency link:", LATENCY)
+        print("verdict:", _res.verdict)
+        print("schedule:", script_str(_res.choices))
+        print("trace:", _res.line)
+        print("observed:", _res.impl)
